@@ -125,9 +125,11 @@ Definition spec_check (srcs bases : list (source tprof)) (st : status) (psrc pba
     && list_eqb String.eqb errs_s (failure_lines srcs)
     && list_eqb String.eqb errs_b (failure_lines bases).
 
-(* through fetchProfiles: the profile reported on is the merge of the fetched sources minus the
+(* [proj]: what of a profile the output format at hand lets one read back (identity for a re-read
+   proto of fetchProfiles' result).
+   through fetchProfiles: the profile reported on is the merge of the fetched sources minus the
    merge of the fetched bases (when both merges and the difference exist) *)
-Definition spec_fetch_check (srcs bases : list (source tprof)) (st_ok : bool) (st : status) (final : option tprof)
+Definition spec_fetch_check_gen (proj : tprof -> tprof) (srcs bases : list (source tprof)) (st_ok : bool) (st : status) (final : option tprof)
            (errs_s errs_b : list string) : bool :=
   let ss := successes srcs in
   let sb := successes bases in
@@ -141,12 +143,14 @@ Definition spec_fetch_check (srcs bases : list (source tprof)) (st_ok : bool) (s
     && list_eqb String.eqb errs_b (failure_lines bases)
     && (if status_eqb want StOk
         then match merged tprof toy_combine srcs, merged tprof toy_combine bases with
-             | Some p, None => st_ok && toy_opt_eqvb final (Some p)
+             | Some p, None => st_ok && toy_opt_eqvb (option_map proj final) (Some (proj p))
              | Some p, Some b =>
                  match toy_combine [p; toy_neg b] with
-                 | Some d => st_ok && toy_opt_eqvb final (Some d)
+                 | Some d => st_ok && toy_opt_eqvb (option_map proj final) (Some (proj d))
                  | None => true       (* sources and bases cannot be compared: outside the statement *)
                  end
              | None, _ => false
              end
         else negb st_ok && status_eqb st want).
+
+Definition spec_fetch_check := spec_fetch_check_gen (fun p => p).
